@@ -75,11 +75,13 @@ ApplyKek(adj, M) == [a \in 1..Len(adj) |-> [k \in 1..Len(adj[a]) |-> [adj[a][k] 
 (***************************************************************************)
 (* State                                                                   *)
 (***************************************************************************)
-EInit(toks, closed, strict) ==
-  [ toks |-> toks, closed |-> closed, tp |-> 0, strict |-> strict,
+EInitT(toks, closed, strict, table) ==
+  [ toks |-> toks, closed |-> closed, tp |-> 0, strict |-> strict, table |-> table,
     p |-> PInit, pc |-> "parse", why |-> "",
     atoms |-> <<>>, adj |-> <<>>, rf |-> <<>>,
     est |-> <<>>, nroot |-> 0, outp |-> <<>>, oat |-> <<>> ]
+
+EInit(toks, closed, strict) == EInitT(toks, closed, strict, Table)
 
 EWaiting(e) == e.pc = "parse" /\ e.tp = Len(e.toks) /\ ~e.closed
 EFail(e, why) == [e EXCEPT !.pc = "error", !.why = why]
@@ -112,7 +114,7 @@ KekChoices(e) ==
 
 (* ---- strict check ---- *)
 ExplicitHE(a) == IF a.h > 0 THEN a.h ELSE 0
-Overfull(e) == {a \in 1..Len(e.atoms) : BondSumE(e.adj, a) + ExplicitHE(e.atoms[a]) > Capacity(Table, e.atoms[a].el, e.atoms[a].chg)}
+Overfull(e) == {a \in 1..Len(e.atoms) : BondSumE(e.adj, a) + ExplicitHE(e.atoms[a]) > Capacity(e.table, e.atoms[a].el, e.atoms[a].chg)}
 DoStrict(e) == IF e.strict /\ Overfull(e) # {} THEN EFail(e, "constraints") ELSE [e EXCEPT !.pc = "chir"]
 
 (* ---- chirality: the decoder will write ring closures first (ring bonds   *)
@@ -211,4 +213,11 @@ EStepFn(e) ==
 ETerminal(e) == e.pc \in {"done", "error"}
 EOutcome(e) == IF e.pc = "error" THEN [kind |-> "EncoderError", value |-> "", why |-> e.why]
                ELSE [kind |-> "ok", value |-> Concat(e.outp), why |-> ""]
+
+(* the encoder as a function (input without aromatic bonds: the Kekulé step is trivial) *)
+RECURSIVE ERun(_)
+ERun(x) == IF ETerminal(x) \/ EKind(x) = "wait" THEN x
+           ELSE IF EKind(x) = "Kek" THEN ERun(CHOOSE n \in KekChoices(x) : TRUE)
+           ELSE ERun(EStepFn(x))
+
 =====================================================================
